@@ -126,7 +126,86 @@ def workloadEntries : List (String × List String) := [
      "radixsort.LSDInt", "radixsort.MSDInt", "radixsort.Quick3WayString", "radixsort.MSDString",
      "list.NewQueue", "list.NewStack", "list.NewSoftQueue", "list.arrayQueue.Enqueue", "list.arrayStack.Push",
      "list.softQueue.Enqueue", "list.arrayQueue.Dequeue", "list.arrayStack.Pop", "list.softQueue.Dequeue",
-     "unionfind.NewQuickFind", "unionfind.NewQuickUnion", "unionfind.NewWeightedQuickUnion"])
+     "unionfind.NewQuickFind", "unionfind.NewQuickUnion", "unionfind.NewWeightedQuickUnion"]),
+  -- the workloads of harness/c20/workload/large.go: large private instances, iterators used twice, the rest of the API
+  ("large-hashtables",
+    ["hash.HashFuncForInt", "hash.HashFuncForString", "symboltable.NewChainHashTable", "symboltable.NewLinearHashTable",
+     "symboltable.NewQuadraticHashTable", "symboltable.NewDoubleHashTable"]
+    ++ (["chainHashTable", "linearHashTable", "quadraticHashTable", "doubleHashTable"].flatMap fun t =>
+          ["Put", "Get", "Delete", "All", "Size"].map fun m => "symboltable." ++ t ++ "." ++ m)),
+  ("large-sets",
+    ["set.New", "set.NewStable", "set.NewSorted"]
+    ++ (["set", "stable", "sorted"].flatMap fun t =>
+          ["Add", "Remove", "All", "Union", "Intersection", "Difference", "IsSubset", "Equal", "Clone", "Size"].map
+            fun m => "set." ++ t ++ "." ++ m)),
+  ("large-structures",
+    ["sort.Quick", "sort.Quick3Way", "sort.Merge", "sort.MergeRec", "sort.Heap", "sort.Shell", "sort.Insertion",
+     "sort.Selection", "radixsort.LSDInt", "radixsort.MSDInt", "radixsort.LSDUint", "radixsort.MSDUint",
+     "radixsort.LSDString", "radixsort.MSDString", "radixsort.Quick3WayString",
+     "symboltable.NewBST", "symboltable.NewAVL", "symboltable.NewRedBlack", "trie.NewBinary", "trie.NewPatricia",
+     "heap.NewBinary", "heap.NewBinomial", "heap.NewFibonacci", "heap.NewIndexedBinary", "heap.NewIndexedBinomial",
+     "heap.NewIndexedFibonacci", "graph.NewUndirected", "graph.NewDirected", "graph.NewWeightedUndirected",
+     "graph.NewWeightedDirected", "graph.NewFlowNetwork", "graph.Undirected.AddEdge", "graph.Directed.AddEdge",
+     "graph.Undirected.ConnectedComponents", "graph.Directed.StronglyConnectedComponents", "graph.Directed.Topological",
+     "graph.Directed.DirectedCycle", "graph.Directed.Orders", "graph.Undirected.Paths", "graph.Directed.Reverse",
+     "graph.WeightedUndirected.AddEdge", "graph.WeightedDirected.AddEdge", "graph.FlowNetwork.AddEdge",
+     "graph.WeightedUndirected.MinimumSpanningTree", "graph.WeightedDirected.ShortestPathTree", "graph.FlowNetwork.DOT",
+     "list.NewQueue", "list.NewStack", "list.NewSoftQueue", "list.arrayQueue.Enqueue", "list.arrayStack.Push",
+     "list.softQueue.Enqueue", "list.arrayQueue.Dequeue", "list.arrayStack.Pop", "list.softQueue.Dequeue",
+     "unionfind.NewQuickFind", "unionfind.NewQuickUnion", "unionfind.NewWeightedQuickUnion",
+     "lexer/input.New", "lexer/input.Input.Next", "lexer/input.Input.Lexeme"]
+    ++ (["bst", "avl", "redBlack"].flatMap fun t =>
+          ["Put", "Delete", "Min", "Max", "Rank", "All", "Size"].map fun m => "symboltable." ++ t ++ "." ++ m)
+    ++ (["binary", "patricia"].flatMap fun t =>
+          ["Put", "Delete", "Min", "WithPrefix", "All", "Size"].map fun m => "trie." ++ t ++ "." ++ m)
+    ++ (["binary", "binomial", "fibonacci"].flatMap fun t =>
+          ["Insert", "Delete", "Peek", "Size"].map fun m => "heap." ++ t ++ "." ++ m)
+    ++ (["indexedBinary", "indexedBinomial", "indexedFibonacci"].flatMap fun t =>
+          ["Insert", "ChangeKey", "DeleteIndex", "Delete", "Size"].map fun m => "heap." ++ t ++ "." ++ m)),
+  ("large-grammar",
+    ["grammar.NewCFG", "grammar.CFG.Verify", "grammar.CFG.ComputeFIRST", "grammar.CFG.ComputeFOLLOW",
+     "grammar.CFG.NullableNonTerminals", "parser/predictive.BuildParsingTable", "parser/predictive.ParsingTable.Conflicts",
+     "parser/predictive.ParsingTable.String", "parser/lr/simple.BuildParsingTable", "parser/lr.ParsingTable.String",
+     "grammar.CFG.ChomskyNormalForm", "grammar.CFG.EliminateLeftRecursion", "grammar.CFG.LeftFactor", "grammar.CFG.Clone",
+     "grammar.CFG.Equal", "grammar.Productions.All"]),
+  ("iter-twice",
+    ["set.New", "set.NewStable", "set.NewSorted", "set.NewWithFormat", "set.Powerset", "set.set.All", "set.stable.All",
+     "set.sorted.All", "set.set.Add", "set.stable.Add", "set.sorted.Add", "set.set.String", "set.stable.String",
+     "set.sorted.String", "symboltable.NewChainHashTable", "symboltable.NewLinearHashTable",
+     "symboltable.NewQuadraticHashTable", "symboltable.NewDoubleHashTable", "symboltable.chainHashTable.All",
+     "symboltable.linearHashTable.All", "symboltable.quadraticHashTable.All", "symboltable.doubleHashTable.All",
+     "symboltable.NewBST", "symboltable.NewAVL", "symboltable.NewRedBlack", "symboltable.bst.All", "symboltable.avl.All",
+     "symboltable.redBlack.All", "trie.NewBinary", "trie.NewPatricia", "trie.binary.All", "trie.patricia.All",
+     "grammar.NewCFG", "grammar.Productions.All", "grammar.Productions.AllByHead", "grammar.CFG.ComputeFIRST",
+     "hash.HashFuncForInt"]),
+  ("api-sweep",
+    ["generic.NewEqualFunc", "generic.NewCompareFunc", "generic.NewReverseCompareFunc", "generic.Collect1",
+     "generic.Collect2", "generic.Find", "generic.Contains", "generic.AnyMatch", "generic.AllMatch", "generic.FirstMatch",
+     "generic.SelectMatch", "generic.PartitionMatch", "generic.Transform",
+     "set.NewWithFormat", "set.NewStableWithFormat", "set.NewSortedWithFormat", "set.NewSorted",
+     "sort.Shuffle", "sort.MergeRec", "sort.Selection", "radixsort.LSDUint", "radixsort.MSDUint", "radixsort.LSDString",
+     "hash.HashFuncForBoolSlice", "hash.HashFuncForInt8", "hash.HashFuncForInt8Slice", "hash.HashFuncForInt16",
+     "hash.HashFuncForInt16Slice", "hash.HashFuncForInt32Slice", "hash.HashFuncForInt64", "hash.HashFuncForInt64Slice",
+     "hash.HashFuncForUint8", "hash.HashFuncForUint16", "hash.HashFuncForUint16Slice", "hash.HashFuncForUint32",
+     "hash.HashFuncForUint32Slice", "hash.HashFuncForUint64Slice", "hash.HashFuncForUintptr",
+     "hash.HashFuncForUintptrSlice", "hash.HashFuncForUint", "hash.HashFuncForUintSlice", "hash.HashFuncForFloat32",
+     "hash.HashFuncForFloat32Slice", "hash.HashFuncForFloat64Slice", "hash.HashFuncForComplex64",
+     "hash.HashFuncForComplex64Slice", "hash.HashFuncForComplex128", "hash.HashFuncForComplex128Slice",
+     "errors.Append", "errors.MultiError.Unwrap", "errors.MultiError.Is", "errors.MultiError.Error",
+     "dot.NewGraph", "dot.NewSubgraph", "dot.NewRecord", "dot.NewSimpleField", "dot.NewComplexField", "dot.NewNode",
+     "dot.NewEdge", "dot.Graph.DOT",
+     "automata.NewStates", "automata.NewSymbols",
+     "grammar.NewCFG", "grammar.NewProductions", "grammar.OrderProductionSet", "grammar.WriteSymbol", "grammar.WriteString",
+     "grammar.Productions.Add", "grammar.Productions.Get", "grammar.Productions.Equal",
+     "parser/lr.NewGrammarWithLR0", "parser/lr.NewGrammarWithLR1", "parser/lr.NewGrammarWithLR0Kernel",
+     "parser/lr.NewGrammarWithLR1Kernel", "parser/lr.BuildStateMap", "parser/lr/lookahead.ComputeLALR1Kernels",
+     "parser/lr.NewItemSetCollection", "parser/lr.NewItemSet", "parser/lr.PrecedenceHandleForTerminal",
+     "parser/lr.PrecedenceHandleForProduction", "parser/lr.NewPrecedenceHandles", "parser/lr.NewParsingTable",
+     "parser/lr.ParsingTable.SetGOTO", "parser/lr.ParsingTable.String", "parser/lr.ParsingTable.Equal",
+     "parser/predictive.NewParsingTable", "parser/predictive.ParsingTable.String", "parser/predictive.ParsingTable.Equal",
+     "parser/predictive.ParsingTable.IsEmpty",
+     "parser/combinator.ExpectRuneInRange", "parser/combinator.ExcludeRunes", "parser/combinator.Parser.Bind",
+     "graph.NewWeightedUndirected", "graph.NewWeightedDirected", "graph.NewFlowNetwork"])
 ]
 
 /-- the workloads the `mixed` workload draws from (goroutine g runs entry (g+seed) mod n) -/
